@@ -67,36 +67,17 @@ pub struct Plan {
     pub io: IoPlan,
     /// also replay each fully read class into the same kind of visitor and compare
     pub accept: bool,
+    /// Some: the fields, methods (with their code) and record components with an odd index report these member-level
+    /// masks instead (hook H1c), so that the members of one class do not all report the same interests
+    #[serde(default)]
+    pub odd: Option<Mask>,
 }
 
 fn b(m: u32, i: u32) -> bool {
     m & (1 << i) != 0
 }
 
-fn spec_of(p: &Plan) -> MaskSpec {
-    let m = &p.mask;
-    let mut s = MaskSpec::all();
-    s.class = ClassInterests {
-        inner_classes: b(m.class, 0),
-        enclosing_method: b(m.class, 1),
-        signature: b(m.class, 2),
-        source_file: b(m.class, 3),
-        source_debug_extension: b(m.class, 4),
-        runtime_visible_annotations: b(m.class, 5),
-        runtime_invisible_annotations: b(m.class, 6),
-        runtime_visible_type_annotations: b(m.class, 7),
-        runtime_invisible_type_annotations: b(m.class, 8),
-        module: b(m.class, 9),
-        module_packages: b(m.class, 10),
-        module_main_class: b(m.class, 11),
-        nest_host: b(m.class, 12),
-        nest_members: b(m.class, 13),
-        permitted_subclasses: b(m.class, 14),
-        record: b(m.class, 15),
-        unknown_attributes: b(m.class, 16),
-        fields: b(m.class, 17),
-        methods: b(m.class, 18),
-    };
+fn member_masks(s: &mut MaskSpec, m: &Mask) {
     s.field.constant_value = b(m.field, 0);
     s.field.signature = b(m.field, 1);
     s.field.runtime_visible_annotations = b(m.field, 2);
@@ -131,6 +112,38 @@ fn spec_of(p: &Plan) -> MaskSpec {
     s.record_component.runtime_visible_type_annotations = b(m.record, 3);
     s.record_component.runtime_invisible_type_annotations = b(m.record, 4);
     s.record_component.unknown_attributes = b(m.record, 5);
+}
+
+fn spec_of(p: &Plan) -> MaskSpec {
+    let m = &p.mask;
+    let mut s = MaskSpec::all();
+    s.class = ClassInterests {
+        inner_classes: b(m.class, 0),
+        enclosing_method: b(m.class, 1),
+        signature: b(m.class, 2),
+        source_file: b(m.class, 3),
+        source_debug_extension: b(m.class, 4),
+        runtime_visible_annotations: b(m.class, 5),
+        runtime_invisible_annotations: b(m.class, 6),
+        runtime_visible_type_annotations: b(m.class, 7),
+        runtime_invisible_type_annotations: b(m.class, 8),
+        module: b(m.class, 9),
+        module_packages: b(m.class, 10),
+        module_main_class: b(m.class, 11),
+        nest_host: b(m.class, 12),
+        nest_members: b(m.class, 13),
+        permitted_subclasses: b(m.class, 14),
+        record: b(m.class, 15),
+        unknown_attributes: b(m.class, 16),
+        fields: b(m.class, 17),
+        methods: b(m.class, 18),
+    };
+    member_masks(&mut s, m);
+    if let Some(o) = &p.odd {
+        let mut os = MaskSpec::all();
+        member_masks(&mut os, o);
+        s.odd = Some(std::rc::Rc::new(os));
+    }
     for (c, k, i) in &p.declined {
         let item = match k {
             0 => Item::Class,
@@ -191,6 +204,14 @@ fn filter_type_annotations(vis: bool, invis: bool, exp: &mut TypeAnnotations, go
 
 /// The full read `full` of class number `ci`, reduced to what a visitor with this plan must have received;
 /// `got` is what it did receive (only consulted for the "uninteresting but delivered" rule and member matching).
+/// the member-level masks the member with index `i` (per class, in file order, declined ones counted) reports
+fn member_mask(p: &Plan, i: usize) -> &Mask {
+    match &p.odd {
+        Some(o) if i % 2 == 1 => o,
+        _ => &p.mask,
+    }
+}
+
 fn expected(full: &Sem, got: &Sem, p: &Plan, ci: usize) -> Sem {
     let m = &p.mask;
     let mut e = full.clone();
@@ -218,11 +239,12 @@ fn expected(full: &Sem, got: &Sem, p: &Plan, ci: usize) -> Sem {
             if declined(3, i) {
                 continue;
             }
+            let mm = member_mask(p, i);
             let g = got.record.as_ref().and_then(|v| v.get(kept.len())).cloned().unwrap_or_else(|| c.clone());
-            uninterested!(b(m.record, 0), c.signature, g.signature, None);
-            filter_annotations(b(m.record, 1), b(m.record, 2), &mut c.annotations, &g.annotations);
-            filter_type_annotations(b(m.record, 3), b(m.record, 4), &mut c.type_annotations, &g.type_annotations);
-            uninterested!(b(m.record, 5), c.unknown, g.unknown, vec![]);
+            uninterested!(b(mm.record, 0), c.signature, g.signature, None);
+            filter_annotations(b(mm.record, 1), b(mm.record, 2), &mut c.annotations, &g.annotations);
+            filter_type_annotations(b(mm.record, 3), b(mm.record, 4), &mut c.type_annotations, &g.type_annotations);
+            uninterested!(b(mm.record, 5), c.unknown, g.unknown, vec![]);
             kept.push(c);
         }
         *rc = kept;
@@ -241,12 +263,13 @@ fn expected(full: &Sem, got: &Sem, p: &Plan, ci: usize) -> Sem {
             if declined(1, i) {
                 continue;
             }
+            let mm = member_mask(p, i);
             let g = got.fields.get(kept.len()).cloned().unwrap_or_else(|| f.clone());
-            uninterested!(b(m.field, 0), f.constant_value, g.constant_value, None);
-            uninterested!(b(m.field, 1), f.signature, g.signature, None);
-            filter_annotations(b(m.field, 2), b(m.field, 3), &mut f.annotations, &g.annotations);
-            filter_type_annotations(b(m.field, 4), b(m.field, 5), &mut f.type_annotations, &g.type_annotations);
-            uninterested!(b(m.field, 6), f.unknown, g.unknown, vec![]);
+            uninterested!(b(mm.field, 0), f.constant_value, g.constant_value, None);
+            uninterested!(b(mm.field, 1), f.signature, g.signature, None);
+            filter_annotations(b(mm.field, 2), b(mm.field, 3), &mut f.annotations, &g.annotations);
+            filter_type_annotations(b(mm.field, 4), b(mm.field, 5), &mut f.type_annotations, &g.type_annotations);
+            uninterested!(b(mm.field, 6), f.unknown, g.unknown, vec![]);
             kept.push(f);
         }
         e.fields = kept;
@@ -260,25 +283,26 @@ fn expected(full: &Sem, got: &Sem, p: &Plan, ci: usize) -> Sem {
             if declined(2, i) {
                 continue;
             }
+            let mm = member_mask(p, i);
             let g = got.methods.get(kept.len()).cloned().unwrap_or_else(|| me.clone());
-            uninterested!(b(m.method, 1), me.exceptions, g.exceptions, None);
-            uninterested!(b(m.method, 2), me.signature, g.signature, None);
-            filter_annotations(b(m.method, 3), b(m.method, 4), &mut me.annotations, &g.annotations);
-            filter_type_annotations(b(m.method, 5), b(m.method, 6), &mut me.type_annotations, &g.type_annotations);
-            uninterested!(b(m.method, 7), me.parameter_annotations.visible, g.parameter_annotations.visible, None);
-            uninterested!(b(m.method, 8), me.parameter_annotations.invisible, g.parameter_annotations.invisible, None);
-            uninterested!(b(m.method, 9), me.annotation_default, g.annotation_default, None);
-            uninterested!(b(m.method, 10), me.method_parameters, g.method_parameters, None);
-            uninterested!(b(m.method, 11), me.unknown, g.unknown, vec![]);
-            if declined(4, i) || (!b(m.method, 0) && g.code.is_none()) {
+            uninterested!(b(mm.method, 1), me.exceptions, g.exceptions, None);
+            uninterested!(b(mm.method, 2), me.signature, g.signature, None);
+            filter_annotations(b(mm.method, 3), b(mm.method, 4), &mut me.annotations, &g.annotations);
+            filter_type_annotations(b(mm.method, 5), b(mm.method, 6), &mut me.type_annotations, &g.type_annotations);
+            uninterested!(b(mm.method, 7), me.parameter_annotations.visible, g.parameter_annotations.visible, None);
+            uninterested!(b(mm.method, 8), me.parameter_annotations.invisible, g.parameter_annotations.invisible, None);
+            uninterested!(b(mm.method, 9), me.annotation_default, g.annotation_default, None);
+            uninterested!(b(mm.method, 10), me.method_parameters, g.method_parameters, None);
+            uninterested!(b(mm.method, 11), me.unknown, g.unknown, vec![]);
+            if declined(4, i) || (!b(mm.method, 0) && g.code.is_none()) {
                 me.code = None;
             } else if let (Some(c), Some(gc)) = (&mut me.code, &g.code) {
-                uninterested!(b(m.code, 0), c.frames, gc.frames, vec![]);
-                uninterested!(b(m.code, 1), c.line_numbers, gc.line_numbers, vec![]);
-                uninterested!(b(m.code, 2), c.local_vars, gc.local_vars, vec![]);
-                uninterested!(b(m.code, 3), c.local_var_types, gc.local_var_types, vec![]);
-                filter_type_annotations(b(m.code, 4), b(m.code, 5), &mut c.type_annotations, &gc.type_annotations);
-                uninterested!(b(m.code, 6), c.unknown, gc.unknown, vec![]);
+                uninterested!(b(mm.code, 0), c.frames, gc.frames, vec![]);
+                uninterested!(b(mm.code, 1), c.line_numbers, gc.line_numbers, vec![]);
+                uninterested!(b(mm.code, 2), c.local_vars, gc.local_vars, vec![]);
+                uninterested!(b(mm.code, 3), c.local_var_types, gc.local_var_types, vec![]);
+                filter_type_annotations(b(mm.code, 4), b(mm.code, 5), &mut c.type_annotations, &gc.type_annotations);
+                uninterested!(b(mm.code, 6), c.unknown, gc.unknown, vec![]);
             }
             kept.push(me);
         }
@@ -420,7 +444,20 @@ impl Engine for C17 {
             };
             io.faults.push(fault);
         }
-        Plan { classes, visitor, mask, declined, io, accept: w.chance(40) }
+        let accept = w.chance(40);
+        // a second member-level mask for the odd members of every class (missed seeded change C17-7: interests asked
+        // once per class instead of once per member)
+        let mut o = rng.split("odd-members");
+        let odd = if visitor == VisitorKind::Masked && o.chance(35) {
+            Some(match o.below(4) {
+                0 => Mask { class: 0, field: 0, method: 0, code: 0, record: 0 },
+                1 => all.clone(),
+                _ => Mask { class: 0, field: o.next() as u32 & all.field, method: (o.next() as u32 & all.method) | if o.chance(70) { 1 } else { 0 }, code: o.next() as u32 & all.code, record: o.next() as u32 & all.record },
+            })
+        } else {
+            None
+        };
+        Plan { classes, visitor, mask, declined, io, accept, odd }
     }
 
     fn exec(&self, p: &Plan, st: &mut RunStats) -> Vec<Violation> {
@@ -625,6 +662,11 @@ impl Engine for C17 {
 
     fn shrink(&self, p: &Plan) -> Vec<Plan> {
         let mut c = vec![];
+        if p.odd.is_some() {
+            let mut q = p.clone();
+            q.odd = None;
+            c.push(q);
+        }
         for i in 0..p.classes.len() {
             if p.classes.len() > 1 {
                 let mut q = p.clone();
